@@ -112,7 +112,197 @@ def enumerate_states(tier, seed):
         extra = [d for d in c01.enumerate_dev3(seed, full=False) if d["pl"] in PLS]
         states += extra
         meta["bound_completed"] += " + seed slice of deviation-3 scenes (%d)" % len(extra)
+    lat, n_tets, n_perm = lat_states(tier, seed)
+    # a lattice shard is ~10 s of work: spread them over the state list so that every chunk holds at most one
+    step = max(1, len(states) // len(lat))
+    merged, li = [], 0
+    for i, d in enumerate(states):
+        if i % step == 0 and li < len(lat):
+            merged.append(lat[li]); li += 1
+        merged.append(d)
+    states = merged + lat[li:]
+    meta["bound_completed"] += (" + lattice-polytope family: all %d non-degenerate tetrahedra of {-1,0,1}^3 (vertex hull and mesh, %d vertex orders in total) x %d partner polytopes x %d centres, both argument orders (%d shards)" % (n_tets, n_perm, len(LAT_B), len(lat[0]["cs"]), len(lat)))
     return states, meta
+
+
+# ------------------------------------------------------------------ lattice-polytope family (exact ties, every tetrahedron)
+#
+# libccd's do_simplex cascade and MPR's portal discovery / refinement are case analyses on signs of exact products.  Scenes of the
+# lattice above reach their tie branches only where an alphabet letter happens to produce one.  This family reaches them by
+# construction: collider A is EVERY non-degenerate tetrahedron with vertices in {-1,0,1}^3 (as a vertex hull and as a mesh, in
+# several vertex orders: the first vertex and argmax ties depend on the order), collider B is one of a few fixed polytopes (unit box,
+# small box, lattice tetrahedron) at centres chosen so that faces, edges and vertices are exactly aligned, exactly touching
+# lattice planes, or in general position.  All data are dyadic, so the sign tests of the code are decided on exact values.
+# Truth: a witness point at depth >= delta in both polytopes (half-space slacks of the facets) or a separating axis with gap >=
+# delta (SAT axes: facet normals and edge-edge cross products); anything else is counted as unjudged.
+
+_LATP = [tuple(float(c) for c in v) for v in itertools.product((-1, 0, 1), repeat=3)]
+LAT_B = [("box", (1.0, 1.0, 1.0)), ("box", (0.5, 0.25, 2.0)), ("tet", ((0, 0, 0), (1, 0, 0), (0, 1, 0), (0, 0, 1))),
+         ("tet", ((-1, -1, -1), (1, 1, -1), (1, -1, 1), (-1, 1, 1)))]
+LAT_C = [(0.0, 0.0, 0.0), (0.5, 0.5, 0.5), (1.5, 0.0, 0.0), (0.25, 0.125, 0.0625), (1.0, 1.0, 1.0), (2.5, 0.0, 0.0), (0.0, -1.25, 1.25),
+         (-2.0, -2.0, -2.0), (0.75, 0.75, 0.0), (1.5, 1.5, 1.5)]
+_PERMS4 = list(itertools.permutations(range(4)))
+
+
+def _lat_tets():
+    out = []
+    for idx in itertools.combinations(range(27), 4):
+        V = np.array([_LATP[i] for i in idx])
+        if abs(np.linalg.det(V[1:] - V[0])) > 0.5:
+            out.append(idx)
+    return out
+
+
+def lat_states(tier, seed):
+    tets = _lat_tets()
+    n_sh = 64
+    out = []
+    if tier == "thorough":
+        plan = [(kind, pm, list(range(len(LAT_C)))) for kind in ("hull", "mesh") for pm in range(24)]
+    else:
+        # quick: every tetrahedron, one seed-selected vertex order per collider kind, the first five centres
+        plan = [("hull", (7 * seed) % 24, list(range(5))), ("mesh", (7 * seed + 23) % 24, list(range(5)))]
+    for sh in range(n_sh):
+        for kind, pm, cs in plan:
+            out.append({"k": "lat", "sh": sh, "nsh": n_sh, "kind": kind, "pm": pm, "cs": cs})
+    perms = sorted({pm for _, pm, _ in plan})
+    return out, len(tets), len(perms)
+
+
+def _facets(V):
+    """outward unit normals and offsets of the facets of the convex hull of V (small polytopes, brute force over triples)"""
+    n = len(V)
+    N, O = [], []
+    for i, j, k in itertools.combinations(range(n), 3):
+        nr = np.cross(V[j] - V[i], V[k] - V[i])
+        ln = np.linalg.norm(nr)
+        if ln < 1e-12:
+            continue
+        nr = nr / ln
+        s = (V - V[i]) @ nr
+        if np.all(s <= 1e-12):
+            N.append(nr); O.append(float(V[i] @ nr))
+        elif np.all(s >= -1e-12):
+            N.append(-nr); O.append(float(-(V[i] @ nr)))
+    return np.array(N), np.array(O)
+
+
+def _edges(V, N, O):
+    E = []
+    for i, j in itertools.combinations(range(len(V)), 2):
+        on = (np.abs(N @ V[i] - O) < 1e-9) & (np.abs(N @ V[j] - O) < 1e-9)
+        if np.sum(on) >= 1:
+            E.append(V[j] - V[i])
+    return np.array(E)
+
+
+_BCACHE = {}
+
+
+def _lat_b(ib, ic):
+    key = (ib, ic)
+    if key not in _BCACHE:
+        kind, par = LAT_B[ib]
+        c = np.array(LAT_C[ic])
+        if kind == "box":
+            h = 0.5 * np.array(par)
+            V = np.array([[sx * h[0], sy * h[1], sz * h[2]] for sx in (-1, 1) for sy in (-1, 1) for sz in (-1, 1)]) + c
+        else:
+            V = np.array(par, dtype=float) + c
+        N, O = _facets(V)
+        _BCACHE[key] = (kind, par, c, V, N, O, _edges(V, N, O))
+    return _BCACHE[key]
+
+
+def _lat_collider_b(ib, ic):
+    from distance3d import colliders
+    kind, par, c, V, N, O, E = _lat_b(ib, ic)
+    if kind == "box":
+        T = np.eye(4)
+        T[:3, 3] = c
+        return colliders.Box(T, np.array(par, dtype=float))
+    return colliders.ConvexHullVertices(np.ascontiguousarray(V))
+
+
+_TET_TRI = np.array([[0, 1, 2], [0, 1, 3], [0, 2, 3], [1, 2, 3]])
+
+
+def run_lat(desc):
+    from distance3d import colliders, gjk, mpr
+    tets = _lat_tets()
+    mine = tets[desc["sh"]::desc["nsh"]]
+    perm = _PERMS4[desc["pm"]]
+    tests = [("gjk_intersection", gjk.gjk_intersection), ("gjk_intersection_libccd", gjk.gjk_intersection_libccd),
+             ("mpr_intersection", mpr.mpr_intersection), ("nesterov_intersection", gjk.gjk_nesterov_accelerated_intersection),
+             ("nesterov_intersection_acc", lambda a, b: gjk.gjk_nesterov_accelerated(a, b, use_nesterov_acceleration=True)[0])]
+    viol, seen = [], set()
+    n_eval = n_unj = n_ov = n_sep = 0
+    delta = 1e-3 * 4.0   # L = max(1, vertex spread 2*sqrt(3), centre distance <= 3.5) <= 4: one delta for the whole family (conservative)
+    for idx in mine:
+        VA = np.ascontiguousarray(np.array([_LATP[idx[p]] for p in perm]))
+        NA, OA = _facets(VA)
+        EA = _edges(VA, NA, OA)
+        for ib in range(len(LAT_B)):
+            for ic in desc["cs"]:
+                kind, par, c, VB, NB, OB, EB = _lat_b(ib, ic)
+                # separating axis with the largest gap
+                C = np.cross(EA[:, None, :], EB[None, :, :]).reshape(-1, 3)
+                ln = np.linalg.norm(C, axis=1)
+                C = C[ln > 1e-9] / ln[ln > 1e-9][:, None]
+                ax = np.vstack([NA, NB, C, -C])
+                gap = float(np.max((VB @ ax.T).min(axis=0) - (VA @ ax.T).max(axis=0)))
+                gap2 = float(np.max((VA @ ax.T).min(axis=0) - (VB @ ax.T).max(axis=0)))
+                gap = max(gap, gap2)
+                expect = None
+                if gap >= delta:
+                    expect = False
+                elif gap < 0:
+                    # witness candidates: vertices' means, centres, and the points of the quarter lattice near both centres
+                    cand = [VA.mean(axis=0), VB.mean(axis=0), 0.5 * (VA.mean(axis=0) + VB.mean(axis=0))]
+                    cand += [0.5 * (a + b) for a in VA for b in VB]
+                    cand += [(VA.mean(axis=0) * w + VB.mean(axis=0) * (4 - w)) / 4.0 for w in (1, 3)]
+                    W = np.array(cand)
+                    dA = (OA[None, :] - W @ NA.T).min(axis=1)
+                    dB = (OB[None, :] - W @ NB.T).min(axis=1)
+                    if float(np.max(np.minimum(dA, dB))) >= delta:
+                        expect = True
+                if expect is None:
+                    n_unj += 1
+                    continue
+                if expect:
+                    n_ov += 1
+                else:
+                    n_sep += 1
+                if desc["kind"] == "hull":
+                    A = colliders.ConvexHullVertices(VA)
+                else:
+                    A = colliders.MeshGraph(np.eye(4), VA, _TET_TRI)
+                B = _lat_collider_b(ib, ic)
+                for order in (0, 1):
+                    X, Y = (A, B) if order == 0 else (B, A)
+                    for name, fn in tests:
+                        n_eval += 1
+                        ctr = instr.instrument([X, Y], budget=4000)
+                        try:
+                            r = bool(fn(X, Y))
+                            bad = None if r == expect else ("missed_overlap" if expect else "phantom_contact")
+                        except instr.BudgetExceeded:
+                            bad = "no_termination_4000_support_calls"
+                        except Exception as e:  # noqa
+                            bad = "exception:" + type(e).__name__
+                        finally:
+                            instr.uninstrument([X, Y])
+                        if bad is not None:
+                            sig = (name, bad)
+                            if sig not in seen or len(viol) < 6:
+                                seen.add(sig)
+                                viol.append(_viol(name, bad, "lattice:%s-%s" % (desc["kind"], kind),
+                                                  {"tet_vertices": VA.tolist(), "B": [kind, list(map(list, par)) if kind == "tet" else list(par), list(c)],
+                                                   "order": "A,B" if order == 0 else "B,A", "expected": expect, "gap": gap, "delta": delta}))
+    return {"viol": viol, "n_eval": n_eval, "n_trans": n_eval, "traces": n_eval, "nontrivial_n": n_ov + n_sep,
+            "hist": {"judged": {"lattice_overlap": n_ov, "lattice_separated": n_sep, "lattice_unjudged": n_unj}},
+            "sample": {"desc": desc, "tetrahedra_in_shard": len(mine), "judged_overlap": n_ov, "judged_separated": n_sep, "unjudged": n_unj}
+            if (desc["sh"] == 0 and desc["pm"] == 0 and desc["kind"] == "hull") else None}
 
 
 def _viol(entry, kind, cls, detail):
@@ -140,6 +330,8 @@ def scale_class(s):
 
 
 def run_state(desc):
+    if desc.get("k") == "lat":
+        return run_lat(desc)
     s = gs.build(desc)
     tr = s["truth"]
     L = tr["L"]
